@@ -48,6 +48,7 @@ CONSTANTS
   MaxCreates, MaxFaults, MaxDel,
   Interleave,  \* TRUE: reconciles of different Usages interleave call by call
   MidEnv,      \* TRUE: the environment may act in the middle of a reconcile
+  BFin,        \* TRUE: the using resource carries a finalizer (its deletion takes two steps)
   FixBump      \* FALSE = the code as written; TRUE = candidate repair: labelling always changes the used resource
 
 Usages == {USeq[i] : i \in 1..Len(USeq)}
@@ -58,7 +59,7 @@ XR == "xr"
 
 VARIABLES
   used,     \* used name -> [ex, label, ann, rv, sv]: in-use label, deletion-attempt annotation, resourceVersion, version last written
-  bex,      \* the using resource exists
+  bst,      \* the using resource: "live" | "deleting" (deletion requested, a finalizer holds it) | "gone"
   us,       \* Usage name -> the stored Usage
   pc,       \* Usage name -> program counter of its reconcile ("idle" = none in flight)
   loc,      \* the reconciler's copy of the Usage (as read, refreshed by its own successful writes)
@@ -69,12 +70,13 @@ VARIABLES
   faults, creates, dels,
   hist      \* ghost: the behaviour so far as scenario steps (hidden by VIEW)
 
-vars == <<used, bex, us, pc, loc, seen, cnd, listN, chg, faults, creates, dels, hist>>
+vars == <<used, bst, us, pc, loc, seen, cnd, listN, chg, faults, creates, dels, hist>>
 \* resourceVersions only matter through "did it move since I read it"
-view == <<[u \in U |-> [used[u] EXCEPT !.rv = 0]], bex, us, pc, loc,
+view == <<[u \in U |-> [used[u] EXCEPT !.rv = 0]], bst, us, pc, loc,
           [s \in Usages |-> loc[s].of \in U /\ seen[s] = used[loc[s].of].rv],
           cnd, listN, chg, faults, creates, dels>>
 
+bex == bst # "gone"      \* the using resource exists (a Get finds it, a List returns it, the garbage collector sees it)
 NoUsage == [ex |-> FALSE, of |-> None, ofm |-> "ref", ver |-> "v1", by |-> None, bym |-> None, comp |-> FALSE,
             fin |-> FALSE, det |-> FALSE, owners |-> {}, ready |-> FALSE, del |-> FALSE]
 NoUsed == [ex |-> FALSE, label |-> FALSE, ann |-> None, rv |-> 0, sv |-> "v1"]
@@ -85,12 +87,12 @@ Log(e) == hist' = Append(hist, e)
 
 Init ==
   /\ used = [u \in U |-> [ex |-> TRUE, label |-> FALSE, ann |-> None, rv |-> 1, sv |-> "v1"]]
-  /\ bex = TRUE
+  /\ bst = "live"
   /\ us = [s \in Usages |-> NoUsage]
   /\ pc = [s \in Usages |-> "idle"] /\ loc = [s \in Usages |-> NoUsage]
   /\ seen = [s \in Usages |-> 0] /\ cnd = [s \in Usages |-> None] /\ listN = [s \in Usages |-> 0] /\ chg = [s \in Usages |-> FALSE]
   /\ faults = 0 /\ creates = 0 /\ dels = 0
-  /\ hist = << [t |-> "init", usages |-> USeq, useds |-> Useds, usel |-> USel, uctl |-> UCtl, versions |-> Versions] >>
+  /\ hist = << [t |-> "init", usages |-> USeq, useds |-> Useds, usel |-> USel, uctl |-> UCtl, versions |-> Versions, bfin |-> BFin] >>
 
 ----------------------------------------------------------------------------
 (* The field index shared by the webhook and the controller, and the       *)
@@ -123,17 +125,21 @@ Create(i, c) ==
                fin |-> FALSE, det |-> FALSE, owners |-> IF c.comp THEN {XR} ELSE {}, ready |-> FALSE, del |-> FALSE]]
   /\ creates' = creates + 1
   /\ Log([t |-> "env", a |-> "env", k |-> "create", o |-> s, f |-> "", cfg |-> c])
-  /\ UNCHANGED <<used, bex, dels>> /\ RecUnch
+  /\ UNCHANGED <<used, bst, dels>> /\ RecUnch
 
 Gone(r) == IF r.fin THEN [r EXCEPT !.del = TRUE] ELSE NoUsage
 UserDeleteS(s) ==
   /\ us[s].ex /\ ~us[s].del
   /\ us' = [us EXCEPT ![s] = Gone(@)]
   /\ Log(HE("delS", s))
-  /\ UNCHANGED <<used, bex, creates, dels>> /\ RecUnch
+  /\ UNCHANGED <<used, bst, creates, dels>> /\ RecUnch
 
 UserDeleteB ==
-  /\ bex /\ bex' = FALSE /\ Log(HE("delB", B))
+  /\ bst = "live" /\ bst' = (IF BFin THEN "deleting" ELSE "gone") /\ Log(HE("delB", B))
+  /\ UNCHANGED <<used, us, creates, dels>> /\ RecUnch
+\* whoever holds the using resource's finalizer lets it go
+FinalizeB ==
+  /\ bst = "deleting" /\ bst' = "gone" /\ Log(HE("finB", B))
   /\ UNCHANGED <<used, us, creates, dels>> /\ RecUnch
 
 \* the garbage collector deletes every object all of whose owners are gone (the XR is never deleted here)
@@ -142,13 +148,13 @@ KubeGC ==
   /\ Orphans # {}
   /\ us' = [s \in Usages |-> IF s \in Orphans THEN Gone(us[s]) ELSE us[s]]
   /\ Log(HE("gc", ""))
-  /\ UNCHANGED <<used, bex, creates, dels>> /\ RecUnch
+  /\ UNCHANGED <<used, bst, creates, dels>> /\ RecUnch
 
 \* the P&T composer re-applies a composed Usage (RespectOwnerRefs keeps the owner references): no abstract effect
 Recompose(s) ==
   /\ us[s].ex /\ us[s].comp /\ ~us[s].del
   /\ Log(HE("recompose", s))
-  /\ UNCHANGED <<used, bex, us, creates, dels>> /\ RecUnch
+  /\ UNCHANGED <<used, bst, us, creates, dels>> /\ RecUnch
 
 DeleteRequest(u, v, p) ==
   /\ used[u].ex /\ dels < MaxDel /\ dels' = dels + 1
@@ -157,11 +163,11 @@ DeleteRequest(u, v, p) ==
                     ELSE [used EXCEPT ![u] = [@ EXCEPT !.ann = Want(p), !.rv = @ + 1, !.sv = v]])
       ELSE used' = [used EXCEPT ![u] = NoUsed])
   /\ Log([t |-> "env", a |-> "env", k |-> "delreq", o |-> u, f |-> "", ver |-> v, pol |-> p])
-  /\ UNCHANGED <<bex, us, creates>> /\ RecUnch
+  /\ UNCHANGED <<bst, us, creates>> /\ RecUnch
 
 Env == EnvOK /\ \/ \E i \in 1..Len(USeq), c \in Configs : Create(i, c)
                 \/ \E s \in Usages : UserDeleteS(s) \/ Recompose(s)
-                \/ UserDeleteB \/ KubeGC
+                \/ UserDeleteB \/ FinalizeB \/ KubeGC
                 \/ \E u \in U, v \in Versions, p \in Policies : DeleteRequest(u, v, p)
 
 ----------------------------------------------------------------------------
@@ -176,7 +182,7 @@ Ok(s, k, o) == Log(HC(s, k, o, "ok")) /\ UNCHANGED faults
 Fail(s, k, o) == CanFault /\ faults' = faults + 1 /\ Log(HC(s, k, o, "fail")) /\ Reset(s)
 Crash(s, k, o) == CanFault /\ faults' = faults + 1 /\ Log(HC(s, k, o, "crashAfter")) /\ Reset(s)
 Goto(s, p) == pc' = [pc EXCEPT ![s] = p]
-EnvUnch == UNCHANGED <<bex, creates, dels>>
+EnvUnch == UNCHANGED <<bst, creates, dels>>
 
 \* where the code goes next, given its copy r of the Usage
 AfterResolve(r) == IF r.del THEN (IF r.by # None /\ r.comp THEN "dWait" ELSE "dGetU")
@@ -309,6 +315,9 @@ Owned == \A s \in Usages : (us[s].ex /\ us[s].ready /\ us[s].by # None) => us[s]
 IndexAgree == \A s \in Usages, u \in U, v \in Versions :
                 /\ (Names(s, u) => Index(us[s]) = {IndexValueForObject(u, v)})
                 /\ (us[s].ex /\ us[s].of # u => IndexValueForObject(u, v) \notin Index(us[s]))
+\* (rider of C08) a composed Usage by a resource loses its finalizer only after that using resource is gone
+UsageAfterUser == [][\A s \in Usages : (us[s].ex /\ us[s].fin /\ us[s].comp /\ us[s].by # None /\ ~(us'[s].ex /\ us'[s].fin))
+                        => bst = "gone"]_vars
 TypeOK == /\ \A s \in Usages : pc[s] \in {"idle", "rOfList", "rOfUpd", "rByList", "rByUpd", "dWait", "dGetU", "dList", "dUnlabel", "dFin",
                                           "cFin", "cDet", "cGetU", "cLabel", "cGetB", "cOwn", "cReady"}
           /\ \A s \in Usages : us[s].del => (us[s].ex /\ us[s].fin)
